@@ -316,6 +316,19 @@ func (w *Worker) intrinsic(s *State, f *Frame, name string, fn *ssa.Function, ar
 			return adv(nil)
 		case "Join", "Settle":
 			return adv(nil)
+		case "WakeAll": // a model finished something other threads may be waiting for (e.g. sync.Once.Do returned)
+			s.writeSeq++
+			for t, o := range s.threads {
+				if t != s.cur {
+					o.yielded = false
+				}
+			}
+			return adv(nil)
+		case "Yield": // like runtime.Gosched: the thread is not rescheduled before another thread has written something
+			if len(s.threads) > 1 {
+				s.threads[s.cur].yielded = true
+			}
+			return adv(nil)
 		case "LastClock":
 			var lc *Term
 			if len(s.threads) > 0 {
@@ -644,6 +657,13 @@ func (w *Worker) intrinsic(s *State, f *Frame, name string, fn *ssa.Function, ar
 			if wn > 0 {
 				unsupported("RWMutex.RLock would block forever (deadlock) at %s", where(s))
 			}
+			// recursive read locking: a writer that calls Lock between the two RLocks blocks the second one
+			// (and is itself blocked by the first) forever - sync.RWMutex prohibits it
+			tk := fmt.Sprintf("rheldby/%s/%d", mk, s.cur)
+			if ghostInt(s, tk) > 0 {
+				s.job.violation(s, "DEADLOCK hazard: recursive read lock of a sync.RWMutex the goroutine already holds for reading (a writer arriving in between blocks both forever)", where(s), nil)
+			}
+			s.ghost[tk] = BV(64, ghostInt(s, tk)+1)
 			rn++
 		case "Unlock":
 			if wn == 0 {
@@ -653,6 +673,9 @@ func (w *Worker) intrinsic(s *State, f *Frame, name string, fn *ssa.Function, ar
 		case "RUnlock":
 			if rn == 0 {
 				bail("FATAL RUnlock of unlocked RWMutex at %s", where(s))
+			}
+			if tk := fmt.Sprintf("rheldby/%s/%d", mk, s.cur); ghostInt(s, tk) > 0 {
+				s.ghost[tk] = BV(64, ghostInt(s, tk)-1)
 			}
 			rn--
 		}
